@@ -52,6 +52,15 @@ def build_cases(chk):
                  for e in ('ret', 'raise', 'exit0', 'exit3', 'exitstr') for d in (False, True) for _ in range(3)]
     for i, c in enumerate(long):
         cases.insert(min(len(cases), i * 16), c)
+    # a parent program that leaves logging unconfigured / has a non-propagating logger without a handler: the
+    # child's records must show up on the parent's stderr exactly like the same records emitted in the parent
+    if chk.tier == 'quick':
+        cases += [scen_log.unconf_case(rng, 'bare', ending='ret', n=30), scen_log.unconf_case(rng, 'bare', ending='raise', n=200),
+                  scen_log.unconf_case(rng, 'noprop', ending='exit3', n=60), scen_log.unconf_case(rng, 'noprop', ending='ret', n=3),
+                  scen_log.unconf_case(rng, 'bare', via='pool'), scen_log.unconf_case(rng, 'noprop', via='pool')]
+    else:
+        cases += [scen_log.unconf_case(rng, v, via=via) for v in ('bare', 'noprop') for via in ('direct',) * 4 + ('pool',)
+                  for _ in range(12)]
     # the parent changes its level settings while the child runs (own logger / ancestor / root), at quiescent points
     cases += [scen_log.levels_case(rng) for _ in range(8 if chk.tier == 'quick' else 200)]
     return cases
@@ -98,7 +107,7 @@ def run(chk):
         'cases = boundary volumes (0, 1, 2 records ... 2000x100 B, 50x2 kB, 20x64 kB, 3x200 kB; thorough: 20000x100 B, '
         '100x64 kB, 1x1 MB) x ending kind (return, raise, sys.exit 0/3/str), plus random (n, size or mixed sizes, ending, '
         'level pattern, root level, gap before the end, a record from handle_exception after the target ended, first accessor '
-        'join/result, a custom level below DEBUG with parent root level 1), plus a stalled parent (its handler blocks 7 s - thorough: up to 40 s - at a generated record while the child has a backlog beyond the pipe buffer) and bursts (13000-16000 - thorough: 150000 - small records while the parent is stalled at its first record), a slow handler (20-25 ms per record) with 150-200 records right before return / raise / sys.exit(3) - also for a daemonic child whose parent program ends right after join -, level changes by the parent (own logger / ancestor / root) at hand-shake points while the child runs, plus the same as a ProcessServlet worker inside a Server and as the worker of a one-process Pool (close+join); each case runs the REAL mpservice Process in a '
+        'join/result, a custom level below DEBUG with parent root level 1), plus a stalled parent (its handler blocks 7 s - thorough: up to 40 s - at a generated record while the child has a backlog beyond the pipe buffer) and bursts (13000-16000 - thorough: 150000 - small records while the parent is stalled at its first record), a slow handler (20-25 ms per record) with 150-200 records right before return / raise / sys.exit(3) - also for a daemonic child whose parent program ends right after join -, level changes by the parent (own logger / ancestor / root) at hand-shake points while the child runs, a parent program that leaves logging unconfigured or has a non-propagating logger without handler (its captured stderr must show the records of the child exactly as the same records emitted in the parent itself; Process and pool worker), plus the same as a ProcessServlet worker inside a Server and as the worker of a one-process Pool (close+join); each case runs the REAL mpservice Process in a '
         'fresh interpreter in its own session with a recording handler on the parent\'s root logger; non-trivial = at least two '
         'records emitted and an observation obtained; distinct = distinct (case, summary of the handled sequence)')
     chk.trusted += TRUSTED
